@@ -314,6 +314,11 @@ class World(object):
         sid = e.eid if e is not None else "?"
         self.calls.append((sid, src))
         self.timeline.append(("call", sid, src))
+        if self.opts.get("prints"):
+            import logging
+            print("OUT<%s:%s>" % (sid, src))
+            sys.stderr.write("ERR<%s:%s>\n" % (sid, src))
+            logging.getLogger("harness").warning("LOG<%s:%s>", sid, src)
         o = self.out(sid, src)
         if o == OUT_ASSERT:
             self.events.append(("assert", sid, src))
@@ -352,10 +357,6 @@ class World(object):
                 context.add_cleanup(cleanup)
             return
         if self.opts.get("prints") and o == OUT_PRINT:
-            import logging
-            print("OUT<%s:%s>" % (sid, src))
-            sys.stderr.write("ERR<%s:%s>\n" % (sid, src))
-            logging.getLogger("harness").warning("LOG<%s:%s>", sid, src)
             return
         # anything else passes
 
@@ -417,14 +418,17 @@ class World(object):
     # -- run ---------------------------------------------------------------------------------------
     def run(self):
         buf = io.StringIO()
+        ebuf = io.StringIO()
+        self.sentinel_out, self.sentinel_err = buf, ebuf
         self.escaped = None
-        with contextlib.redirect_stdout(buf):
+        with contextlib.redirect_stdout(buf), contextlib.redirect_stderr(ebuf):
             try:
                 self.verdict = self.runner.run_model()
             except Exception as e:      # an exception escaping run_model is itself an observation
                 self.escaped = e
                 self.verdict = None
         self.stdout = buf.getvalue()
+        self.stderr = ebuf.getvalue()
         self.bind_rows(build=True)      # observation time: the loaded model includes every outline row
         return self.verdict
 
